@@ -21,6 +21,10 @@ Inductive case :=
    (safe or not) of callee c by System.Contract.Call or CALLT.  ran = the callee's code ran *)
 | CSelfCall (domovoi : bool) (loaded : list permission) (current : option (list permission))
             (c : callee) (m : string) (safe : bool) (ran : bool)
+(* a callee whose ABI (in manifest order) has overloads of one name; a deployed caller with [perms] calls name/n asking
+   for flags f (Contract.Call from a frame with all flags, or CALLT with an All token from a frame with flags f); the
+   callee's body tries capability probe (1 Local.Put, 2 Notify, 3 Contract.Call).  ran / eff as observed *)
+| COverload (abi : list abi_method) (name : string) (n : N) (perms : list permission) (f probe : N) (ran eff : bool)
 (* a call into a contract blocked by Policy: ran = the blocked contract's code ran *)
 | CBlocked (ran : bool)
 (* a chain of calls: each hop (requested flags, kind) with kind 0 = non-safe forwarding method, 1 = forwarding method
@@ -113,6 +117,17 @@ Definition check_case (cs : case) : N :=
              | None => true
              end in
       code3 model spec
+  | COverload abi name n perms f probe ran eff =>
+      match overload_call abi name n perms (mk_callee 1 []) f, find_method abi name n with
+      | Some (permitted, g), Some md =>
+          let bit := match probe with 1 => WriteStates | 2 => AllowNotify | _ => N.lor ReadStates AllowCall end in
+          let model := Bool.eqb ran permitted && Bool.eqb eff (permitted && has g bit) in
+          (* specification keyed on the executed overload (name, n) *)
+          let spec := imp ran (md_safe md || may_callb perms (mk_callee 1 []) name) &&
+                      imp eff (has g bit) && imp (eff && md_safe md) (negb ((probe =? 1) || (probe =? 2))) in
+          code3 model spec
+      | _, _ => 3
+      end
   | CBlocked ran => if ran then 2 else 0
   | CChain hops ff final completed w n c =>
       let finstr :=
